@@ -44,10 +44,6 @@ theorem exec_put_bounded (s : QState) (t v c : Nat) (rest : List QOp) (hc : s.ca
   · simp [hg, QState.notifs]
 
 
-theorem Mon.Struct.not_parked {m : Mon} {R : Nat → Cond → Prop} (h : m.Struct R) {t : Nat} {c : Cond} (hr : ¬ R t c) :
-    t ∉ (m.ws c).W ∧ t ∉ (m.ws c).S :=
-  ⟨fun hx => hr (h.role c t (Or.inl hx)), fun hx => hr (h.role c t (Or.inr hx))⟩
-
 theorem QRole.upd {prog : Nat → List QOp} {t : Nat} {rest : List QOp} (x : Nat) (c : Cond) (hx : x ≠ t)
     (h : QRole prog x c) : QRole (upd prog t rest) x c := by
   cases c <;> simpa [QRole, upd_other _ _ _ _ hx] using h
@@ -66,13 +62,6 @@ namespace QState
 @[simp] theorem fin_prog (s : QState) (t op rest r) : (s.fin t op rest r).prog = upd s.prog t rest := rfl
 theorem fin_toMon (s : QState) (t op rest r) : (s.fin t op rest r).toMon = { s.toMon with owner := none } := rfl
 end QState
-
-/-- what `notifs [notify c]` leaves behind -/
-theorem Mon.notifs_one (m : Mon) (c : Cond) :
-    (m.notifs [⟨false, c⟩]).owner = m.owner ∧ (∀ c', c' ≠ c → (m.notifs [⟨false, c⟩]).ws c' = m.ws c') ∧
-      OneSpec (m.ws c) ((m.notifs [⟨false, c⟩]).ws c) := by
-  have := Mon.notify_spec m ⟨false, c⟩
-  simpa [Mon.notifs] using this
 
 /-- `put` past its wait: push, notify `notEmpty_`, unlock -/
 theorem qinv_put_go {s : QState} {t v : Nat} {rest : List QOp} (h : QInv s) (hp : s.prog t = .put v :: rest)
@@ -460,5 +449,124 @@ theorem q_blocked_facts {s : QState} (h : QInv s) (hb : QBlocked s) :
   · cases hS : s.nf.S with
     | nil => rfl
     | cons u l => exact (key .notFull u (by show u ∈ s.nf.S; rw [hS]; simp)).elim
+
+
+/-! ### program order and the capacity -/
+
+/-- the operations thread `p` has completed, in order -/
+def opsOf (p : Nat) (log : List QEv) : List QOp := (log.filter (fun e => e.t = p)).map (·.op)
+
+theorem exec_shape (s : QState) (t : Nat) (op : QOp) (rest : List QOp) :
+    (s.execOp t op rest).cap = s.cap ∧
+      (((s.execOp t op rest).prog = s.prog ∧ (s.execOp t op rest).log = s.log) ∨
+        ∃ r, (s.execOp t op rest).prog = upd s.prog t rest ∧ (s.execOp t op rest).log = s.log ++ [⟨t, op, r⟩]) := by
+  have hcap : s.cap = none ∨ ∃ c, s.cap = some c := by cases s.cap <;> simp
+  cases op with
+  | put v =>
+    rcases hcap with hc | ⟨c, hc⟩
+    · rw [exec_put_unbounded s t v rest hc]; exact ⟨rfl, Or.inr ⟨_, rfl, rfl⟩⟩
+    · obtain ⟨S', _, he⟩ := exec_put_bounded s t v c rest hc
+      rw [he]; split
+      · exact ⟨rfl, Or.inl ⟨rfl, rfl⟩⟩
+      · exact ⟨rfl, Or.inr ⟨_, rfl, rfl⟩⟩
+  | take =>
+    obtain ⟨S', _, he⟩ := exec_take s t rest
+    rw [he]; split
+    · exact ⟨rfl, Or.inl ⟨rfl, rfl⟩⟩
+    · split
+      · exact ⟨rfl, Or.inr ⟨_, rfl, rfl⟩⟩
+      · exact ⟨rfl, Or.inr ⟨_, rfl, rfl⟩⟩
+  | drain =>
+    simp only [QState.execOp]; split
+    · exact ⟨rfl, Or.inr ⟨_, rfl, rfl⟩⟩
+    · exact ⟨rfl, Or.inr ⟨_, rfl, rfl⟩⟩
+  | size => exact ⟨rfl, Or.inr ⟨_, rfl, rfl⟩⟩
+  | empty => exact ⟨rfl, Or.inr ⟨_, rfl, rfl⟩⟩
+  | full => exact ⟨rfl, Or.inr ⟨_, rfl, rfl⟩⟩
+  | capacity => exact ⟨rfl, Or.inr ⟨_, rfl, rfl⟩⟩
+
+theorem qstep_shape {s s' : QState} {a : Act} (hs : qstep s a = some s') :
+    s'.cap = s.cap ∧ ((s'.prog = s.prog ∧ s'.log = s.log) ∨
+      ∃ t op rest r, s.prog t = op :: rest ∧ s'.prog = upd s.prog t rest ∧ s'.log = s.log ++ [⟨t, op, r⟩]) := by
+  cases a with
+  | acq t =>
+    simp only [qstep] at hs
+    split at hs
+    · cases hs; exact ⟨rfl, Or.inl ⟨rfl, rfl⟩⟩
+    · cases hs
+  | body t =>
+    simp only [qstep] at hs
+    split at hs
+    · split at hs
+      · cases hs; exact ⟨rfl, Or.inl ⟨rfl, rfl⟩⟩
+      · rename_i op rest hp
+        cases hs
+        obtain ⟨h1, h2⟩ := exec_shape s t op rest
+        refine ⟨h1, ?_⟩
+        rcases h2 with h2 | ⟨r, h2, h3⟩
+        · exact Or.inl h2
+        · exact Or.inr ⟨t, op, rest, r, hp, h2, h3⟩
+    · cases hs
+  | spur t c =>
+    simp only [qstep] at hs
+    split at hs
+    · cases hs; exact ⟨rfl, Or.inl ⟨rfl, rfl⟩⟩
+    · cases hs
+
+theorem qreach_cap {s0 s : QState} (hr : QReach s0 s) : s.cap = s0.cap := by
+  induction hr with
+  | refl => rfl
+  | step a _ hs ih => rw [(qstep_shape hs).1, ih]
+
+theorem qreach_hist {s0 s : QState} (hr : QReach s0 s) (h0 : s0.log = []) (p : Nat) :
+    opsOf p s.log ++ s.prog p = s0.prog p := by
+  induction hr with
+  | refl => simp [opsOf, h0]
+  | step a _ hs ih =>
+    rcases (qstep_shape hs).2 with ⟨h1, h2⟩ | ⟨t, op, rest, r, hp, h1, h2⟩
+    · rw [h1, h2]; exact ih
+    · rw [h1, h2, ← ih]
+      by_cases hpt : p = t
+      · subst hpt
+        simp [opsOf, List.filter_append, hp]
+      · have : ¬ t = p := fun h => hpt h.symm
+        simp [opsOf, List.filter_append, upd_other _ _ _ _ hpt, this]
+
+/-! ### concrete runs (for the non-vacuity examples) -/
+
+def runQ (s : QState) : List Act → Option QState
+  | [] => some s
+  | a :: as => (qstep s a).bind fun s' => runQ s' as
+
+theorem runQ_reach {s0 s : QState} {as : List Act} (h : runQ s0 as = some s) : QReach s0 s := by
+  induction as generalizing s0 with
+  | nil => cases h; exact .refl
+  | cons a as ih =>
+    simp only [runQ] at h
+    cases hs : qstep s0 a with
+    | none => rw [hs] at h; cases h
+    | some s1 =>
+      rw [hs] at h
+      have h1 : QReach s1 s := ih h
+      clear ih h
+      induction h1 with
+      | refl => exact .step a .refl hs
+      | step b _ hb ih2 => exact .step b ih2 hb
+
+/-- capacity 1, a consumer that arrives first and waits, two puts of one producer: both come out, in order -/
+def demoProg : Nat → List QOp
+  | 1 => [.put 5, .put 6]
+  | 2 => [.take, .take]
+  | _ => []
+
+def demoActs : List Act :=
+  [.acq 2, .body 2, .acq 1, .body 1, .acq 1, .body 1, .acq 2, .body 2, .acq 1, .body 1, .acq 2, .body 2]
+
+/-- a lone consumer: a reachable state in which nobody can move (the hypotheses of `nobody_stuck`) -/
+def loneProg : Nat → List QOp := fun t => if t = 1 then [.take] else []
+
+def loneParked : QState :=
+  { toMon := { owner := none, ne := { W := [1], S := [] }, nf := {}, sched := [] }, cap := none, q := [],
+    prog := loneProg, log := [] }
 
 end MuduoVerif.Monitor
